@@ -13,7 +13,7 @@
    NOT bounded by the input length: the number of (empty) arrays hevc.DecodeHEVCDecConfRec appends
    after a read error in an array header; it is bounded by 255 (C16_hevc_confrec_arrays_le_len_refuted). *)
 From V.lib Require Import Base.
-From V.c16 Require Import C16ConfRecModel C16ConfRecProofs.
+From V.c16 Require Import C16ConfRecModel C16ConfRecProofs C16Av1EncModel C16Av1EncProofs.
 
 (* ------------------------------------------------------------------ avc *)
 (* the SPS / PPS loop from ANY state inside the record and for ANY count (not only one read from a
@@ -79,6 +79,22 @@ Theorem C16_av1_DecodeAV1CodecConfRec_total : forall data : list N,
 Proof. exact av1_confrec_total. Qed.
 Print Assumptions C16_av1_DecodeAV1CodecConfRec_total.
 
+(* the rest of the av1 package: CodecConfRec.Size / Encode / EncodeSW (C16Av1EncModel.v; the package has no String).
+   For EVERY record value (fields outside their bit widths included) Encode returns bytes, never the writer's
+   error: the bits.FixedSliceWriter of Size() bytes is exactly filled *)
+Theorem C16_av1_Encode_total : forall r : av1_rec,
+  av1_encode r = Ok (av1_header r ++ av_config_obus r) /\ lenN (av1_header r ++ av_config_obus r) = av1_size r.
+Proof. exact av1_encode_total. Qed.
+Print Assumptions C16_av1_Encode_total.
+
+(* and for every byte input the decoder accepts, Encode gives the input back and Size is its length: memory of the
+   decode + encode pair is 2 |data| *)
+Theorem C16_av1_DecodeEncode_roundtrip : forall (data : list N) (r : av1_rec),
+  Forall (fun b => b < 256) data -> av1_decode_codec_conf_rec data = Ok r ->
+  av1_encode r = Ok data /\ av1_size r = lenN data.
+Proof. exact av1_decode_encode_roundtrip. Qed.
+Print Assumptions C16_av1_DecodeEncode_roundtrip.
+
 (* ------------------------------------------------------------------ examples *)
 (* avcC of avc/avcdecoderconfig_test.go (High profile, one SPS, one PPS, trailing info) *)
 Example ex_avc_confrec_valid :
@@ -134,6 +150,13 @@ Example ex_av1_confrec_valid :
   av1_decode_codec_conf_rec [129; 9; 76; 0; 10; 11; 0; 0; 0; 74; 171; 191; 195; 119; 255; 231; 1] =
   Ok (mkAv1Rec 1 0 9 0 1 0 0 1 1 0 0 0 [10; 11; 0; 0; 0; 74; 171; 191; 195; 119; 255; 231; 1]).
 Proof. vm_compute. reflexivity. Qed.
+
+Example ex_av1_encode :
+  av1_decode_encode [129; 9; 76; 0; 10; 11; 0; 0; 0; 74; 171; 191; 195; 119; 255; 231; 1] =
+    Ok [129; 9; 76; 0; 10; 11; 0; 0; 0; 74; 171; 191; 195; 119; 255; 231; 1] /\
+  (* field values beyond their widths are masked, not an error *)
+  av1_encode (mkAv1Rec 255 9 33 2 1 0 0 1 1 7 1 31 [7]) = Ok [255; 33; 79; 31; 7].
+Proof. vm_compute. split; reflexivity. Qed.
 
 Example ex_av1_confrec_hostile :
   av1_decode_codec_conf_rec [] = Err /\
